@@ -19,6 +19,28 @@ def tally_record(name, counts, expect, outputs=None):
     return rec
 
 
+_RAW = None
+
+
+def _raw_draws():
+    """replays the draw pattern of random_pair (two vectors of 2N bits, g1 redrawn while zero) on numba's generator,
+    to learn which raw bits a seed produces; used for the drift-only alignment with Sampler.tla"""
+    global _RAW
+    if _RAW is None:
+        import numpy
+        from numba import njit
+
+        @njit
+        def raw(N):
+            g1 = numpy.random.randint(0, 2, 2 * N)
+            g2 = numpy.random.randint(0, 2, 2 * N)
+            while (g1 == 0).all():
+                g1 = numpy.random.randint(0, 2, 2 * N)
+            return g1, g2
+        _RAW = raw
+    return _RAW
+
+
 class C16(Prop):
     id = "C16"
     trace_module = "TraceC16"
@@ -35,6 +57,8 @@ class C16(Prop):
 
     def models(self):
         # the sample spaces: the whole groups, enumerated by TLC (24 / 11520 maps = 720 x 16 signed tables)
+        # exact uniformity of the transcribed sampler by counting raw draws (N<=2), diagonalisation postconditions
+        self.model("MC_Sampler", "MC_Sampler_t.cfg" if self.tier == "thorough" else "MC_Sampler_q.cfg", name="sampler_counting", workers=4)
         self.model("MC_Clifford", "MC_Clifford_maps_n1.cfg", name="group_n1", expect_distinct=24)
         self.model("MC_Clifford", "MC_Clifford_maps_n2.cfg", name="group_n2", expect_distinct=11520)
 
@@ -60,6 +84,8 @@ class C16(Prop):
         yield {"k": "tally", "name": "random_clifford_signs_n2", "n": 2, "M": 16000 * f, "seed": base + 3, "signs": True, "expect": 16}
         yield {"k": "tally", "name": "random_pauli_n1", "n": 1, "M": 12000 * f, "seed": base + 4, "signed": True, "expect": 24, "pauli": True}
         yield {"k": "tally", "name": "random_pauli_n2", "n": 2, "M": 18000 * f, "seed": base + 5, "signed": False, "expect": 36, "pauli": True}
+        for t in range(4000 * f):
+            yield {"k": "align", "what": "clifford2" if t % 4 else "pair", "n": 2 if t % 8 else 1, "seed": base + 5000 + t, "pkg": "py"}
         yield {"k": "coin", "seed": base + 6, "M": 4000 * f, "pkg": "py"}
         yield {"k": "bitsigns", "seed": base + 7, "M": 2000 * f, "pkg": "py"}
         yield {"k": "resample", "seed": base + 8}
@@ -112,6 +138,22 @@ class C16(Prop):
                         reps[key] = [x[:-1] + [0] for x in w] if not scn.get("signed") else w
                 outs = None if scn.get("signs") else [reps[k2] for k2 in sorted(reps)][:800]
                 return [tally_record(scn["name"], counts, scn["expect"], outs)]
+            if k == "align":
+                n = scn["n"]
+                raw = _raw_draws()
+                if scn["what"] == "pair":
+                    be.seed(scn["seed"])
+                    r1 = raw(n)
+                    be.seed(scn["seed"])
+                    g1, g2 = be.utils.random_pair(n)
+                    return [{"op": "align", "what": "pair", "n": n, "raw": [be.p_ints(r1[0]), be.p_ints(r1[1])], "out": [be.p_ints(g1), be.p_ints(g2)]}]
+                be.seed(scn["seed"])
+                r2 = raw(2)
+                r1 = raw(1)
+                be.seed(scn["seed"])
+                tab = be.utils.random_clifford(2)
+                return [{"op": "align", "what": "clifford2", "n": 2, "raw2": [be.p_ints(r2[0]), be.p_ints(r2[1])],
+                         "raw1": [be.p_ints(r1[0]), be.p_ints(r1[1])], "out": [be.p_ints(row) for row in tab]}]
             if k == "coin":
                 be.seed(scn["seed"])
                 c = [0, 0]
